@@ -228,7 +228,15 @@ func (c *LocalReusableWorkflowCache) FindMetadata(spec string) (*ReusableWorkflo
 	}
 
 	file := filepath.Join(c.proj.RootDir(), filepath.FromSlash(spec))
-	src, err := os.ReadFile(file)
+	// The path is built from a string in workflow. Do not read a device file or a named pipe since reading it may
+	// never end
+	var src []byte
+	var err error
+	if info, e := os.Stat(file); e == nil && !info.Mode().IsRegular() {
+		err = fmt.Errorf("%q is not a regular file", file)
+	} else {
+		src, err = os.ReadFile(file)
+	}
 	if err != nil {
 		if m, ok := c.writeCacheIfAbsent(spec, nil); ok { // Remember the workflow file was not found
 			return m, nil
